@@ -15,6 +15,7 @@ from .index import parse_key
 
 M = "permutation-shadow"
 MAX_DIMS = 4
+MAX_SIZE = 2000  # larger arrays (only the piggy-backed examples reach them) are not replayed
 
 
 def rebuild(fd, snap: Snap, order=None, cls=None):
@@ -140,7 +141,7 @@ def register(hub, exhaustive: bool, rng, prop="C04", max_pairs=24):
         opn = call.op.split(".")[-1]
         xs = call.pre[0]
         other = call.arg(1)
-        if not isinstance(xs, Snap) or not xs.ok or len(xs.letters) > MAX_DIMS:
+        if not isinstance(xs, Snap) or not xs.ok or len(xs.letters) > MAX_DIMS or xs.values.size > MAX_SIZE:
             return
         if isinstance(other, fd.FlodymArray):
             ys = call.pre[1]
@@ -183,7 +184,7 @@ def register(hub, exhaustive: bool, rng, prop="C04", max_pairs=24):
     def o_unary_method(method, rule, extra_array_arg=None):
         def oracle(hub, call):
             xs = call.pre[0]
-            if not isinstance(xs, Snap) or not xs.ok or len(xs.letters) > MAX_DIMS or len(xs.letters) < 2:
+            if not isinstance(xs, Snap) or not xs.ok or len(xs.letters) > MAX_DIMS or len(xs.letters) < 2 or xs.values.size > MAX_SIZE:
                 return
             args = list(call.args[1:])
             kwargs = dict(call.kwargs)
@@ -240,7 +241,7 @@ def register(hub, exhaustive: bool, rng, prop="C04", max_pairs=24):
     # ------------------------------------------------------------------ slice reads
     def o_getitem(hub, call):
         xs = call.pre[0]
-        if not isinstance(xs, Snap) or not xs.ok or len(xs.letters) > MAX_DIMS or len(xs.letters) < 2:
+        if not isinstance(xs, Snap) or not xs.ok or len(xs.letters) > MAX_DIMS or len(xs.letters) < 2 or xs.values.size > MAX_SIZE:
             return
         key = call.arg(1)
         sel, status, kind = parse_key(fd, xs, key)
@@ -273,7 +274,7 @@ def register(hub, exhaustive: bool, rng, prop="C04", max_pairs=24):
     # ------------------------------------------------------------------ assignment
     def o_setitem(hub, call):
         ts = call.pre[0]
-        if not isinstance(ts, Snap) or not ts.ok or len(ts.letters) > MAX_DIMS:
+        if not isinstance(ts, Snap) or not ts.ok or len(ts.letters) > MAX_DIMS or ts.values.size > MAX_SIZE:
             return
         key = call.arg(1)
         rhs = call.arg(2)
